@@ -241,6 +241,47 @@ def check(tm, options, path, solution=None, complete=True, n_probes=0, screening
                 if gm.shape != wm.shape or not np.array_equal(gm, wm):
                     if not (gm.shape[-1] == N + 1):
                         viol("dynamics_mu_wrong", "dynamics_wrong", {"shape_got": list(gm.shape), "shape_want": list(wm.shape)})
+        # what the loaded solution DERIVES from those records: voltages / phase differences between probes, their time average,
+        # look-up of a step or frame by its time
+        if dyn is not None and N >= 1 and len(np.asarray(dyn.dt)) == N:
+            cnt("derived_record_checks")
+            try:
+                tm_ = np.asarray(dyn.time, dtype=float)
+                want_tm = np.cumsum(np.asarray(dts[:N]))
+                if tm_.shape != want_tm.shape or np.max(np.abs(tm_ - want_tm)) > 1e-12 * max(1.0, float(want_tm[-1])):
+                    viol("dynamics_time_wrong", "derived_records_wrong", {"got_tail": tm_[-3:].tolist(), "want_tail": want_tm[-3:].tolist()})
+                else:
+                    j_ = N // 2
+                    if int(dyn.closest_time(float(want_tm[j_]))) != j_:
+                        viol("closest_time_wrong", "derived_records_wrong", {"asked": float(want_tm[j_]), "got_index": int(dyn.closest_time(float(want_tm[j_]))), "want_index": j_})
+                    lo_, hi_ = float(want_tm[N // 4]), float(want_tm[(3 * N) // 4])
+                    idx_ = np.asarray(dyn.time_slice(lo_, hi_))
+                    want_idx = np.where((tm_ >= lo_) & (tm_ <= hi_))[0]
+                    if not np.array_equal(idx_, want_idx):
+                        viol("time_slice_wrong", "derived_records_wrong", {"got": idx_.tolist()[:6], "want": want_idx.tolist()[:6]})
+                    if n_probes >= 2 and dyn.mu is not None and np.asarray(dyn.mu).shape == (n_probes, N):
+                        mu_ = np.array([u["probe_mu"] for u in ups[:N]], dtype=float).T
+                        th_ = np.array([u["probe_theta"] for u in ups[:N]], dtype=float).T if all("probe_theta" in u for u in ups[:N]) else None
+                        for (a_, b_) in ((0, 1), (n_probes - 1, 0)):
+                            if not np.array_equal(np.asarray(dyn.voltage(a_, b_)), mu_[a_] - mu_[b_]):
+                                viol("voltage_wrong", "derived_records_wrong", {"probes": [a_, b_]})
+                            if th_ is not None and dyn.theta is not None and not np.array_equal(np.asarray(dyn.phase_difference(a_, b_)), th_[a_] - th_[b_]):
+                                viol("phase_difference_wrong", "derived_records_wrong", {"probes": [a_, b_]})
+                            v_ = mu_[a_] - mu_[b_]
+                            w_ = np.asarray(dts[:N], dtype=float)
+                            for (t0_, t1_) in ((-np.inf, np.inf), (lo_, hi_)):
+                                sel = (want_tm >= t0_) & (want_tm <= t1_)
+                                if sel.any():
+                                    want_mv = float(np.sum(v_[sel] * w_[sel]) / np.sum(w_[sel]))
+                                    got_mv = float(dyn.mean_voltage(a_, b_, tmin=t0_, tmax=t1_))
+                                    if abs(got_mv - want_mv) > 1e-12 * (float(np.max(np.abs(v_))) + 1e-300):
+                                        viol("mean_voltage_wrong", "derived_records_wrong", {"probes": [a_, b_], "window": [t0_, t1_], "got": got_mv, "want": want_mv})
+                if got_t is not None and got_t == want_t and len(want_t) > 1:
+                    jf = len(want_t) // 2
+                    if int(solution.closest_solve_step(want_t[jf])) != jf:
+                        viol("closest_solve_step_wrong", "derived_records_wrong", {"asked": want_t[jf], "got": int(solution.closest_solve_step(want_t[jf])), "want": jf})
+            except Exception as exc:  # noqa: BLE001
+                viol("derived_records_raised", "derived_records_raised", {"error": repr(exc)[:200]})
         # loading another frame changes which state is shown, not the run's clock or its per-step records
         if got_t is not None and dyn is not None and len(want_steps) > 1 and solution.path and os.path.exists(solution.path):
             import tdgl
